@@ -37,6 +37,12 @@ def run(chk: Check):
                               tail_posterior=False)
     traces += D.engine_traces(gs.HMCKernel, ["zz", "aa"], ["mm"], True, seed=chk.seed + 11, chains=1, companion="rw", stepwise=True,
                               slow=(8, 8))
+    # a fast and a slow adaptation epoch of the same duration (their tuning calls see histories of the same shape), in both
+    # orders: slow after fast tunes the matrix from its own history, fast after slow leaves the matrix alone
+    traces += D.engine_traces(gs.NUTSKernel, ["zz", "aa"], ["mm"], True, seed=chk.seed + 12, chains=1, companion="rw", fast=8,
+                              slow=(8,), tail_fast=8)
+    traces += D.engine_traces(gs.HMCKernel, ["zz", "aa"], ["mm", "Beta"], False, seed=chk.seed + 13, chains=2, fast=6, slow=(9, 6),
+                              tail_fast=9)
     if not chk.quick:
         traces += D.engine_traces(gs.HMCKernel, ["zz", "aa"], ["mm", "Beta"], False, seed=chk.seed + 1)
         traces += D.engine_traces(gs.NUTSKernel, ["k", "b1", "Z"], ["alpha_2"], False, seed=chk.seed + 2, slow=(9, 9, 12))
